@@ -185,6 +185,10 @@ type Program struct {
 	HasCSV         bool
 	// spark --cols smaller than the number of columns: see FINDINGS.md
 	TrimCols int
+	// Sized programs belong to the size families (size.go): the snapshot shows
+	// at most Limit keys / rows of an aggregate that may hold thousands
+	Sized bool
+	Limit int
 }
 
 const lineRegex = `^([^|]*)\|([^|]*)\|(.*)$`
@@ -316,6 +320,14 @@ func fold(p *Program, lines []string) *Ref {
 	re := regexp.MustCompile(p.Match)
 	r := &Ref{counter: map[string]int64{}, table: &tableRef{cols: map[string]bool{}, rows: map[string]bool{}, cells: map[[2]string]int64{}},
 		subKeys: map[string]bool{}, sub: map[string]map[string]int64{}, accum: map[string][]string{}}
+	cats := map[string]*strings.Builder{} // cat accumulators (group key, accumulator index), joined at the end
+	defer func() {
+		for k, sb := range cats {
+			i := strings.LastIndexByte(k, 1)
+			n, _ := strconv.Atoi(k[i+1:])
+			r.accum[k[:i]][n] = sb.String()
+		}
+	}()
 	for _, l := range lines {
 		r.read++
 		m := re.FindStringSubmatch(l)
@@ -412,7 +424,16 @@ func fold(p *Program, lines []string) *Ref {
 				case "last":
 					row[i] = val
 				case "cat":
-					row[i] = cur + val + ";"
+					// (linear: the text is joined once, at the end)
+					ck := key + "\x01" + strconv.Itoa(i)
+					sb := cats[ck]
+					if sb == nil {
+						sb = &strings.Builder{}
+						sb.WriteString(cur)
+						cats[ck] = sb
+					}
+					sb.WriteString(val)
+					sb.WriteString(";")
 				}
 			}
 			r.accum[key] = row
@@ -475,6 +496,14 @@ type figure struct {
 // every figure `analyze` prints. Where the statement does not fix a
 // definition every common one is accepted.
 func analyzeFigures(vals []float64, quantiles []float64) (map[string]figure, bool) {
+	return analyzeFiguresSlack(vals, quantiles, false)
+}
+
+// analyzeFiguresSlack: with slack, a figure closer to a rounding boundary of
+// the display than floating-point summation order can move it (2e-11 relative
+// + 1e-9) is accepted with either rounding (size families: thousands of
+// values, where the distance cannot be guaranteed up front).
+func analyzeFiguresSlack(vals []float64, quantiles []float64, slack bool) (map[string]figure, bool) {
 	out := map[string]figure{}
 	n := len(vals)
 	if n == 0 {
@@ -488,6 +517,14 @@ func analyzeFigures(vals []float64, quantiles []float64) (map[string]figure, boo
 				admitted = false
 			}
 			f.accept = append(f.accept, fmt4(x))
+			if slack {
+				d := math.Abs(x)*2e-11 + 1e-9
+				for _, y := range []float64{x - d, x + d} {
+					if fmt4(y) != fmt4(x) {
+						f.accept = append(f.accept, fmt4(y))
+					}
+				}
+			}
 		}
 		out[name] = f
 	}
